@@ -421,14 +421,26 @@ def run(tier, seed):
     def with_history(scheds, p):
         out = []
         for s in scheds:
-            if rh.random() < p:
+            x = rh.random()
+            if x < p:
                 c = dict(s[0])
                 c["warm"], c["warmby"] = rh.randint(1, 3), rh.randint(1, c["P"] + c["B"])
+                if x < p / 2:
+                    # LAZY nodes (connect on first use, as NewMultiHTTP builds them) some of which were DOWN during the history
+                    # (their connection attempts failed) and are back for the judged call
+                    c["lazy"] = True
+                    others = [i for i in range(1, c["P"] + c["B"] + 1) if i != c["warmby"]]
+                    c["connfail"] = sorted(rh.sample(others, rh.randint(0, len(others)))) if others else []
+                s = [c] + list(s[1:])
+            elif x < p + 0.1:
+                c = dict(s[0])
+                c["lazy"] = True
                 s = [c] + list(s[1:])
             out.append(s)
         return out
     rnd = with_history(rnd, 0.33)
     enum_stuck = with_history(enum_stuck, 0.33)
+    enum = with_history(enum, 0.2)
     # stage 2+3
     vlib.conformance(o, FAMILY, "MultiClientTrace", TCFG, "c19", scheds, tag="tlcgen")
     vlib.conformance(o, FAMILY, "MultiClientTrace", TCFG, "c19", enum, tag="enum")
